@@ -89,6 +89,41 @@ func (w *World) Send(p int, b []byte) sworld.StepObs {
 	return w.Settle()
 }
 
+// SendUDP sends through the real socket (receiver goroutine included).
+func (w *World) SendUDP(p int, b []byte) sworld.StepObs {
+	if w.Dead {
+		return w.Settle()
+	}
+	o1 := w.World.SendUDP(p, b)
+	o := w.Settle()
+	for i := range o1.Out {
+		o.Out[i] = append(o1.Out[i], o.Out[i]...)
+	}
+	if o1.State != "" {
+		o.State = o1.State
+	}
+	o.Fatal = o.Fatal || o1.Fatal
+	o.Alive = o.Alive && o1.Alive
+	return o
+}
+
+func (w *World) SendUDPBatch(ds []sworld.Dgram) sworld.StepObs {
+	if w.Dead {
+		return w.Settle()
+	}
+	o1 := w.World.SendUDPBatch(ds)
+	o := w.Settle()
+	for i := range o1.Out {
+		o.Out[i] = append(o1.Out[i], o.Out[i]...)
+	}
+	if o1.State != "" {
+		o.State = o1.State
+	}
+	o.Fatal = o.Fatal || o1.Fatal
+	o.Alive = o.Alive && o1.Alive
+	return o
+}
+
 // NotifyNoSettle hands a notification over without waiting (bursts: the report queue holds 128 entries, the
 // call blocks while it is full and the loop drains it concurrently); call Settle afterwards.
 func (w *World) NotifyNoSettle(genlPayload []byte) {
